@@ -728,7 +728,9 @@ impl ParserListener for Screen {
                     }
                 }
             } else {
-                break; // Unprintable character or doesn't advance the cursor.
+                // Unprintable character or doesn't advance the cursor:
+                // skip it, the rest of the text is still drawn.
+                continue;
             }
 
             // .. note:: We can't use `cursor_forward()`, because that
